@@ -233,6 +233,42 @@ func runC12(c *Ctx) {
 		c.mustFollowIter(fn, "job pushed back", starts, mapUpdate(isQueries), "currentQueries[job.index] = batchNum", nil, 1)
 	})
 
+	c.rule("C12.O3", "every available peer gets a worker: in workDispatcher, from the receive of a newly connected peer every path through the iteration registers a worker for it in the workers table and starts its Run goroutine (a connected peer that is dropped here can never be handed the re-issued requests)", func() {
+		fn := c.fn(fnDispatch)
+		var peerT types.Type
+		if n := c.P.Named("query", "Peer"); n != nil {
+			peerT = n
+		}
+		starts := c.selectArms(fn, func(sel *ssa.Select, st *ssa.SelectState) bool {
+			if st.Dir != types.RecvOnly {
+				return false
+			}
+			ch, ok := st.Chan.Type().Underlying().(*types.Chan)
+			return ok && peerT != nil && types.Identical(ch.Elem(), peerT)
+		}, "peer connected")
+		aw := c.P.Named("query", "activeWorker")
+		reg := mapUpdate(func(m ssa.Value) bool {
+			mt, ok := m.Type().Underlying().(*types.Map)
+			return ok && aw != nil && elemIs(mt.Elem(), aw)
+		})
+		c.mustFollowIter(fn, "peer connected", starts, reg, "workers[peer.Addr()] = &activeWorker{..}", nil, 1)
+		c.graph()
+		run := c.method("query", "Worker", "Run")
+		goRun := func(in ssa.Instruction) bool {
+			g, ok := in.(*ssa.Go)
+			if !ok {
+				return false
+			}
+			for _, t := range c.valueFuncs(g.Call.Value, 0) {
+				if len(find(t, callTo(run))) > 0 {
+					return true
+				}
+			}
+			return false
+		}
+		c.mustFollowIter(fn, "peer connected", starts, goRun, "go r.Run(w.jobResults, w.quit)", nil, 1)
+	})
+
 	c.rule("C12.O2", "worker.Run: once a job is received every path to the next job or to a return passes the send of a result (select with the results channel), except through the quit arm; an error-free result is sent only after the handler reported Finished", func() {
 		fn := c.fn(fnWRun)
 		nextJob := c.field("query", "worker", "nextJob")
